@@ -54,8 +54,19 @@ package sctp
 //@   safety C03
 //@ func chunkSelectiveAck.unmarshal
 //@   loop 1 invariant#blocks offset == 12+4*rangeIdx && rangeIdx <= len(s.gapAckBlocks) && len(s.raw) == 12+4*len(s.gapAckBlocks)+4*len(s.duplicateTSN) && len(s.gapAckBlocks) <= 65535 && len(s.duplicateTSN) <= 65535
+//@   loop 1 invariant#blocks-decoded forall k int :: 0 <= k && k < rangeIdx ==> s.gapAckBlocks[k].start == specBE16(s.raw, 12+4*k) && s.gapAckBlocks[k].end == specBE16(s.raw, 14+4*k)
 //@   loop 2 invariant#dups offset == 12+4*len(s.gapAckBlocks)+4*rangeIdx && rangeIdx <= len(s.duplicateTSN) && len(s.raw) == 12+4*len(s.gapAckBlocks)+4*len(s.duplicateTSN) && len(s.gapAckBlocks) <= 65535 && len(s.duplicateTSN) <= 65535
-//@   tags C03
+//@   loop 2 invariant#blocks-kept forall k int :: 0 <= k && k < len(s.gapAckBlocks) ==> s.gapAckBlocks[k].start == specBE16(s.raw, 12+4*k) && s.gapAckBlocks[k].end == specBE16(s.raw, 14+4*k)
+//@   loop 2 invariant#dups-decoded forall k int :: 0 <= k && k < rangeIdx ==> s.duplicateTSN[k] == specBE32(s.raw, 12+4*len(s.gapAckBlocks)+4*k)
+//@   ensures#header-fields result == nil ==> len(s.raw) >= 12 && s.cumulativeTSNAck == specBE32(s.raw, 0) && s.advertisedReceiverWindowCredit == specBE32(s.raw, 4) &&
+//@      len(s.gapAckBlocks) == int(specBE16(s.raw, 8)) && len(s.duplicateTSN) == int(specBE16(s.raw, 10)) && len(s.raw) == 12+4*len(s.gapAckBlocks)+4*len(s.duplicateTSN)
+//@   ensures#gap-blocks result == nil ==> forall k int :: 0 <= k && k < len(s.gapAckBlocks) ==> s.gapAckBlocks[k].start == specBE16(s.raw, 12+4*k) && s.gapAckBlocks[k].end == specBE16(s.raw, 14+4*k)
+//@   ensures#duplicate-tsns result == nil ==> forall k int :: 0 <= k && k < len(s.duplicateTSN) ==> s.duplicateTSN[k] == specBE32(s.raw, 12+4*len(s.gapAckBlocks)+4*k)
+//@   ensures#value-is-own-bytes result == nil ==> sameSlice(s.raw, raw[4:4+int(specBE16(raw, 2)-4)])
+//@   ensures#accepts-well-formed len(raw) >= 16 && raw[0] == 3 && int(specBE16(raw, 2)) == len(raw) &&
+//@      len(raw) == 16+4*int(specBE16(raw, 12))+4*int(specBE16(raw, 14)) ==> result == nil
+//@   modifies s.*
+//@   tags C03 C12
 //@   safety C03
 //@ func chunkShutdown.unmarshal
 //@   safety C03
@@ -135,3 +146,32 @@ package sctp
 //@   ensures#carries-info err == nil ==> len(out) >= 8+len(info.heartbeatInformation) && out[0] == 4
 //@   ensures#encodes err == nil
 //@   tags C19 C12
+
+//@ func chunkSelectiveAck.marshal
+//@   requires#fits len(s.gapAckBlocks) <= 8000 && len(s.duplicateTSN) <= 8000
+//@   loop 1 invariant#layout offset == 12+4*rangeIdx && rangeIdx <= len(s.gapAckBlocks) && len(sackRaw) == 12+4*len(s.gapAckBlocks)+4*len(s.duplicateTSN) && isNew(sackRaw)
+//@   loop 1 invariant#header-kept specBE32(sackRaw, 0) == s.cumulativeTSNAck && specBE32(sackRaw, 4) == s.advertisedReceiverWindowCredit &&
+//@      specBE16(sackRaw, 8) == uint16(len(s.gapAckBlocks)) && specBE16(sackRaw, 10) == uint16(len(s.duplicateTSN))
+//@   loop 1 invariant#blocks-written forall k int :: 0 <= k && k < rangeIdx ==> specBE16(sackRaw, 12+4*k) == s.gapAckBlocks[k].start && specBE16(sackRaw, 14+4*k) == s.gapAckBlocks[k].end
+//@   loop 2 invariant#layout offset == 12+4*len(s.gapAckBlocks)+4*rangeIdx && rangeIdx <= len(s.duplicateTSN) && len(sackRaw) == 12+4*len(s.gapAckBlocks)+4*len(s.duplicateTSN) && isNew(sackRaw)
+//@   loop 2 invariant#header-kept specBE32(sackRaw, 0) == s.cumulativeTSNAck && specBE32(sackRaw, 4) == s.advertisedReceiverWindowCredit &&
+//@      specBE16(sackRaw, 8) == uint16(len(s.gapAckBlocks)) && specBE16(sackRaw, 10) == uint16(len(s.duplicateTSN))
+//@   loop 2 invariant#blocks-kept forall k int :: 0 <= k && k < len(s.gapAckBlocks) ==> specBE16(sackRaw, 12+4*k) == s.gapAckBlocks[k].start && specBE16(sackRaw, 14+4*k) == s.gapAckBlocks[k].end
+//@   loop 2 invariant#dups-written forall k int :: 0 <= k && k < rangeIdx ==> specBE32(sackRaw, 12+4*len(s.gapAckBlocks)+4*k) == s.duplicateTSN[k]
+//@   ensures#wire-header result1 == nil && len(result0) == 16+4*len(s.gapAckBlocks)+4*len(s.duplicateTSN) && result0[0] == 3 &&
+//@      specBE16(result0, 2) == uint16(len(result0)) && specBE32(result0, 4) == s.cumulativeTSNAck && specBE32(result0, 8) == s.advertisedReceiverWindowCredit &&
+//@      specBE16(result0, 12) == uint16(len(s.gapAckBlocks)) && specBE16(result0, 14) == uint16(len(s.duplicateTSN))
+//@   ensures#wire-blocks forall k int :: 0 <= k && k < len(s.gapAckBlocks) ==> specBE16(result0, 16+4*k) == s.gapAckBlocks[k].start && specBE16(result0, 18+4*k) == s.gapAckBlocks[k].end
+//@   ensures#wire-dups forall k int :: 0 <= k && k < len(s.duplicateTSN) ==> specBE32(result0, 16+4*len(s.gapAckBlocks)+4*k) == s.duplicateTSN[k]
+//@   modifies s.chunkHeader.typ, s.chunkHeader.raw
+//@   tags C12
+//@   safety C03
+
+//@ func verifLemmaRoundTripSACK
+//@   requires#size s != nil && len(s.gapAckBlocks) <= 8000 && len(s.duplicateTSN) <= 8000
+//@   ensures#decodes err == nil
+//@   ensures#fields q.cumulativeTSNAck == s.cumulativeTSNAck && q.advertisedReceiverWindowCredit == s.advertisedReceiverWindowCredit &&
+//@      len(q.gapAckBlocks) == len(s.gapAckBlocks) && len(q.duplicateTSN) == len(s.duplicateTSN)
+//@   ensures#gap-blocks forall k int :: 0 <= k && k < len(s.gapAckBlocks) ==> q.gapAckBlocks[k].start == s.gapAckBlocks[k].start && q.gapAckBlocks[k].end == s.gapAckBlocks[k].end
+//@   ensures#duplicate-tsns forall k int :: 0 <= k && k < len(s.duplicateTSN) ==> q.duplicateTSN[k] == s.duplicateTSN[k]
+//@   tags C12 C05
